@@ -547,9 +547,14 @@ func (g *gen) malformed(i int, seed uint64) *scenario {
 	case 3:
 		fields["finalized"] = t
 		what = "finalized"
-	case 4: // one child entry replaced
-		fields["children"] = "[" + child("c0") + "," + t + "]"
-		what = "child-entry"
+	case 4: // one child entry replaced (sometimes two adjacent ones)
+		if r.Chance(1, 3) {
+			fields["children"] = "[" + t + "," + t + "," + child("c0") + "]"
+			what = "child-entries-adjacent"
+		} else {
+			fields["children"] = "[" + child("c0") + "," + t + "]"
+			what = "child-entry"
+		}
 	case 5: // a field inside a child replaced
 		c := child("c0")
 		sub := []string{`"kind":`, `"apiVersion":`, `"metadata":`, `"name":`, `"labels":`, `"app":`}[r.Intn(6)]
@@ -807,8 +812,12 @@ func (g *gen) rollout(i int, seed uint64, fair bool) *scenario {
 	sc.Warmup = true
 	// after the warm-up: everything healthy, then the spec changes
 	healthy := extOp{Op: "healthy-all", APIVersion: kid.APIVersion, Kind: kid.Kind, Data: J{"reason": "Healthy"}}
-	if r.Chance(1, 4) {
+	switch r.Intn(6) {
+	case 0:
 		healthy.Data["noObservedGeneration"] = true
+	case 1:
+		healthy.Data["observedGenerationAsString"] = true // legal in a schemaless custom resource; must be ignored
+		sc.Features = append(sc.Features, "observed-generation-not-integer")
 	}
 	sickly := extOp{Op: "healthy-all", APIVersion: kid.APIVersion, Kind: kid.Kind, Data: J{"reason": "CrashLoopBackOff"}}
 	sc.Setup = []extOp{healthy}
@@ -1029,7 +1038,35 @@ func generateScenarios(prop string, seed uint64, n int, adv bool) []*scenario {
 		case prop == "C08":
 			out = append(out, g.rollout(i, s, true))
 		case prop == "C09":
-			out = append(out, g.rollout(i, s, i%2 == 0))
+			sc := g.rollout(i, s, true)
+			for tries := 0; tries < 20 && (sc.Ctl.GenSelector || !sc.Ctl.ParentNamespaced); tries++ {
+				sc = g.rollout(i, s, true) // configurations with a known rollout finding (D27, D28) belong to C08
+			}
+			// an API error on a ControllerRevision write, or a crash cut (every later request of that sync fails)
+			at := r.Intn(3)
+			if at < len(sc.Rounds) {
+				rs := &sc.Rounds[at]
+				switch r.Intn(3) {
+				case 0:
+					verb := []string{"create", "update", "delete"}[r.Intn(3)]
+					f := []J{{"code": 409, "reason": "Conflict"}, {"code": 409, "reason": "AlreadyExists"}, {"code": 500, "reason": "InternalError"}}[r.Intn(3)]
+					rs.FaultOn = []faultOn{{Verb: verb, Kind: "ControllerRevision", Fault: f}}
+					sc.Features = append(sc.Features, "revision-write-fault")
+				case 1:
+					cut := r.Intn(8)
+					rs.Faults = map[string]J{}
+					for x := cut; x < cut+40; x++ {
+						rs.Faults[fmt.Sprint(x)] = J{"code": 500, "reason": "InternalError"}
+					}
+					sc.Features = append(sc.Features, "crash-cut")
+				}
+			}
+			// room to recover
+			healthy := sc.Rounds[len(sc.Rounds)-1].PreOps
+			for x := 0; x < 4; x++ {
+				sc.Rounds = append(sc.Rounds, roundSpec{PreOps: healthy})
+			}
+			out = append(out, sc)
 		case prop == "C17":
 			switch i % 7 {
 			case 0:
